@@ -37,6 +37,7 @@ Fixpoint canon (fuel : nat) (s : store) (v : value) : bytes :=
       | VMap m => [77; 123]%N ++ commas (map (fun kv => canon f s (fst kv) ++ [61%N] ++ canon f s (snd kv)) (get_map s m)) ++ [125%N]
       | VRange lo hi incl => [82%N] ++ dec lo ++ [46; 46]%N ++ (if incl then [61%N] else []) ++ dec hi
       | VFn _ => [70%N]
+      | VIter _ => [73%N]
       end
   end.
 
